@@ -155,8 +155,11 @@ def stepTraj (tr : Traj) (st : TrajRun) (q : String × String) : TrajRun :=
       | .error _ => st
       | .ok (_, ms) =>
         match atoks with
-        | [rc, m, _, same] =>
-          if rc = "0" ∧ m = toString ms ∧ same = "=" then st
+        | [rc, m, secs, same] =>
+          if rc = "0" ∧ m = toString ms ∧ same = "=" then
+            -- the statistics' duration in seconds is the same sum, in seconds (as the trajectory's own query 'E')
+            (if f32Tok secs = some (.fin (secF32 ms)) then st
+             else { st with err := some s!"stats duration in seconds: model {ratToString (secF32 ms)} (= {ms} ms) impl bits {secs}" })
           else { st with err := some s!"stats duration: model {ms} (whatever else is requested with it) impl {ans}" }
         | _ => { st with err := some "bad S answer" }
     else if k = 's' ∨ k = 'e' then
